@@ -42,6 +42,7 @@ class IOController:
         self.handles = []
         self.snapshot = {}
         self.watch = list(getattr(self, "watch", []))
+        self.read_boundaries = False
 
     def _fire(self, name, phase):
         self.fired = (self.k, name, phase)
@@ -75,6 +76,7 @@ class IOController:
         return r
 
 
+_END = object()
 CTL = IOController()
 
 
@@ -122,7 +124,22 @@ class PFile:
     def __iter__(self):
         if CTL.active:
             CTL.log.append(f"{self._label}.iter")
+        if CTL.active and CTL.read_boundaries:
+            return self._lines()
         return iter(self._f)
+
+    def _lines(self):
+        # one boundary per line read (only when read faults are asked for: C13); a fault here is
+        # a read(2) that fails while the library scans its file
+        it = iter(self._f)
+        while True:
+            if CTL.active and CTL.read_boundaries:
+                line = CTL.call(f"{self._label}.readline", next, it, _END)
+            else:
+                line = next(it, _END)
+            if line is _END:
+                return
+            yield line
 
     def __next__(self):
         return next(self._f)
